@@ -24,6 +24,40 @@ TABLE = [
      'DS/RS/RZ/qcfail are compared with the simulated cut and with the mirrored twin.',
      'no_overhang mode and BAM-level fetch are not covered; check_motif=False only with full-length motif geometries; '
      'no_umi_cigar_processing only with unclipped reads.'),
+    ('C16',
+     'explicit-state search over operation histories (add* sort query*)^r on a fresh real FeatureContainer per history, brute-force interval-overlap reference model compared in every state',
+     'All histories of 2 rounds (thorough: also 3 rounds on a smaller alphabet and larger first rounds) in which each round adds a multiset '
+     'of <=2 features out of all closed intervals over 0..3 x strand (+2 on a second contig), re-indexes, and then issues no query or ALL '
+     'point/range/read queries; every answer is compared with brute-force overlap on the current feature multiset, so stale memoised '
+     'answers and a stale index are plain mismatches. Molecule annotation (methods 0/1, stranded None/same/other) on all single-round histories.',
+     'Histories always sort() between additions and queries (the quantifier of the property); memo emptied before each history; '
+     'GTF/BED loaders are not driven.'),
+    ('C10',
+     'bounded-exhaustive enumeration of coordinate x bin size x sliding increment on both copies of the bin arithmetic, on assignReads, and on count tables produced by the real create_count_table from synthesised BAMs; set-definition oracle',
+     'Every point 0..N, bin 1..B, increment 1..bin (quick N=120,B=24; thorough N=600,B=60) on both copies of coordinate_to_bins / '
+     'coordinate_to_sliding_bin_locations; assignReads for every coordinate 0..L+2 x (b,s) x keepOverBounds x bin tag x weight; full count '
+     'tables (768 quick / 6720 thorough) from BAMs holding a read on every coordinate, every cell compared with the defining window set.',
+     'Small contigs (tens of bases); weights limited to single reads and mate halves.'),
+    ('C11',
+     'bounded-exhaustive enumeration of option sets x reads (all reads within 2 attribute changes of a plain read) on read_should_be_counted/assignReads and on create_count_table; independent recomputation oracle from the property text and CLI help',
+     'Level 1: 490 reads x all option sets within distance 3 of the default (quick) / all 24576 option sets (thorough). Level 2: the same '
+     'reads in one BAM through create_count_table with -contig and -bedfile, option sets within distance 2 (quick) / 3 (thorough). '
+     'Interactions the documentation leaves open are executed but not judged (about 3.5% of cases, listed in the evidence assumptions).',
+     'The oracle follows the CLI help strings; undocumented interactions (byValue x divided weight, NM missing, XA vs NH disagreement) are not judged.'),
+    ('C02',
+     'bounded-exhaustive enumeration of read-length pairs, barcode substitutions and barcode placements per registered strategy with position-coded reads; documentation-derived layout table + table-free window invariants',
+     'All 28 registered strategies x 3 whitelisted barcodes x all read-length pairs (quick 0..P+8 and 100/149/150; thorough 0..150 x 0..48,150) '
+     'x every ACGTN substitution at every barcode position (expansion 1) x barcode planted -2..+2 off its documented position; composite '
+     'strategies get their content classes. Reads are position-coded (de-Bruijn bases, position-dependent qualities) so every emitted base '
+     'and tag identifies its mate and offset.',
+     'The layout table is a transcription of the class descriptions/TAGS.MD; rows backed only by code comments are marked weak and cannot alarm. '
+     'CHROMC16U12 is vacuous (whitelist emptied in this snapshot).'),
+    ('C04',
+     'bounded-exhaustive enumeration of strategies x header shapes x every phred character at every encoded quality position x library-name lengths through demultiplex -> asFastq -> pysam read name -> QueryNameFlagger.digest; field-by-field round-trip oracle',
+     'Every strategy x accepted Illumina header shape x every phred char 33..126 at every quality position stored in the name x int/str cell '
+     'indices x library lengths moving the name across 240..260 (thorough 225..280); the pure codec on all 94 chars and all 8836 pairs. '
+     'Decoded BC/bc/bi/RX/RQ/LY/MX/aa/aA/Is/RN/Fc/La/Ti/CX/CY, SM and MI are compared with what was encoded; over-long names must be refused.',
+     'MI/SM only demanded when the encoder produced the fields they derive from; qualities above the top letter saturate by design.'),
 ]
 
 # id -> reason it is currently not claimed
